@@ -49,6 +49,13 @@ CASES = [
  ('c04-running-check-inverted', 'C04', MG, '.any(|chunk| chunk.migrating_slots.iter().any(|slots| !slots.is_empty()));\n        if running_migration {', '.any(|chunk| chunk.migrating_slots.iter().any(|slots| slots.is_empty()));\n        if running_migration {', 'violation'),
  ('c04-add-cluster-stale-epoch', 'C04', U, '        let epoch = self.store.bump_global_epoch();\n\n        let cluster_store = ClusterStore {\n            epoch,', '        let epoch = self.store.bump_global_epoch() - 1;\n\n        let cluster_store = ClusterStore {\n            epoch,', 'violation'),
  ('c04-add-cluster-tags-before-refusal', 'C04', U, '        if node_num % 4 != 0 {\n            return Err(MetaStoreError::InvalidNodeNum);\n        }\n        let proxy_num', '        self.store.bump_global_epoch();\n        if node_num % 4 != 0 {\n            return Err(MetaStoreError::InvalidNodeNum);\n        }\n        let proxy_num', 'violation'),
+ ('c04-auto-delete-epoch-before-refusal', 'C04', U, '                if removed_chunks.is_empty() {\n                    return Err(MetaStoreError::FreeNodeNotFound);\n                }\n\n                cluster.set_epoch(new_epoch);', '                cluster.set_epoch(new_epoch);\n                if removed_chunks.is_empty() {\n                    return Err(MetaStoreError::FreeNodeNotFound);\n                }\n', 'violation'),
+ ('c04-auto-delete-no-bump', 'C04', U, '        // Set proxies free\n        for chunk in removed_chunks.into_iter() {\n            for proxy_address in chunk.proxy_addresses.iter() {\n                if let Some(proxy) = self.store.all_proxies.get_mut(proxy_address) {\n                    proxy.cluster = None;\n                }\n            }\n        }\n\n        self.store.bump_global_epoch();', '        // Set proxies free\n        for chunk in removed_chunks.into_iter() {\n            for proxy_address in chunk.proxy_addresses.iter() {\n                if let Some(proxy) = self.store.all_proxies.get_mut(proxy_address) {\n                    proxy.cluster = None;\n                }\n            }\n        }\n', 'violation'),
+ ('c06-balance-ignores-reports', 'C06', U, 'if failed_proxies.contains(address) || failures.contains_key(address) {', 'if failed_proxies.contains(address) {', 'violation'),
+ ('c01-auto-delete-ignores-importing', 'C01', U, '                    for slots in chunk.migrating_slots.iter() {\n                        if !slots.is_empty() {\n                            return true;\n                        }\n                    }\n                    removed_chunks.push(chunk.clone());', '                    removed_chunks.push(chunk.clone());', 'violation'),
+ ('c14-slots-break-instead-of-continue', 'C14', PC, '            if should_ignore_slots(slot_range, migration_states) {\n                continue;\n            }\n\n            let node_id', '            if should_ignore_slots(slot_range, migration_states) {\n                break;\n            }\n\n            let node_id', 'violation'),
+ ('c14-slots-end-is-start', 'C14', PC, 'Resp::Integer(range.end().to_string().into_bytes()),', 'Resp::Integer(range.start().to_string().into_bytes()),', 'violation'),
+ ('c15-single-hint-not-remembered', 'C15', 'src/protocol/packet.rs', '                self.curr_hint = Some(h.clone());\n                h', '                if let OptionalMultiHint::Multi(_) = &h {\n                    self.curr_hint = Some(h.clone());\n                }\n                h', 'violation'),
  # ---- C01
  ('c01-compact-adjacent', 'C01', CL, 'if s.end() + 1 >= e.start() {', 'if s.end() >= e.start() {', 'violation'),
  ('c01-compact-truncate', 'C01', CL, 'self.0.truncate(a + 1);', 'self.0.truncate(a);', 'violation'),
